@@ -226,3 +226,74 @@ def stale_writers(minfo, family, memo, lazy=()):
                 for a, node in assigned.items():
                     out.append((cname, mname, a, node))
     return out
+
+
+MEMO_DECORATORS = ('lru_cache', 'cache', 'cached_property', 'functools.lru_cache', 'functools.cache', 'functools.cached_property', 'memoize', 'memoized')
+
+
+def decorator_memos(minfo, repo=None, modname=None):
+    """[(class, method, decorator text, attributes read by the method that the cache key does not cover)] for methods memoised by a decorator.
+
+    lru_cache / cache on an instance method keys the cache on (self, *args): `self` is compared with the class's __eq__ / __hash__. When the
+    class defines them over a subset of its state (Key: key material only), every other attribute the method reads - directly, through
+    properties or through self-methods it calls - is missing from the key. Without custom equality the key is the object identity: then
+    every attribute that any method of the class assigns after construction can make the cached value stale."""
+    import ast as _ast
+    out = []
+    for cname, c in minfo.classes.items():
+        methods = class_methods(minfo, cname)
+        # inherited equality (single inheritance inside the module)
+        eq_attrs = None
+        cur = c
+        chain = [cname]
+        while cur is not None:
+            ms = class_methods(minfo, cur.name)
+            if '__eq__' in ms or '__hash__' in ms:
+                eq_attrs = set()
+                for nm in ('__eq__', '__hash__'):
+                    if nm in ms:
+                        eq_attrs |= attr_reads(ms[nm], ms)
+                break
+            nxt = None
+            for b in cur.bases:
+                if isinstance(b, _ast.Name) and b.id in minfo.classes:
+                    nxt = minfo.classes[b.id]
+                    chain.append(b.id)
+                    break
+            cur = nxt
+        allm = {}
+        for cn in reversed(chain):
+            allm.update(class_methods(minfo, cn))
+        for mname, f in methods.items():
+            for d in f.decorator_list:
+                dn = d.func if isinstance(d, _ast.Call) else d
+                text = _ast.unparse(dn)
+                if text not in MEMO_DECORATORS:
+                    continue
+                reads = set()
+                todo, seen = [f], set()
+                while todo:
+                    g = todo.pop()
+                    if id(g) in seen:
+                        continue
+                    seen.add(id(g))
+                    reads |= attr_reads(g, allm)
+                    for call in _ast.walk(g):
+                        if isinstance(call, _ast.Call) and isinstance(call.func, _ast.Attribute) and isinstance(call.func.value, _ast.Name) and call.func.value.id == 'self' and call.func.attr in allm:
+                            todo.append(allm[call.func.attr])
+                if eq_attrs is not None:
+                    missing = sorted(a for a in reads - eq_attrs if not a.startswith('__'))
+                else:
+                    # identity key: attributes assigned outside __init__ by any method of the class family
+                    mutable = set()
+                    for mn, g in allm.items():
+                        if mn == '__init__':
+                            continue
+                        for s_ in _ast.walk(g):
+                            if isinstance(s_, (_ast.Assign, _ast.AugAssign)):
+                                for t in (s_.targets if isinstance(s_, _ast.Assign) else [s_.target]):
+                                    if isinstance(t, _ast.Attribute) and isinstance(t.value, _ast.Name) and t.value.id == 'self':
+                                        mutable.add(t.attr)
+                    missing = sorted(reads & mutable)
+                out.append((cname, mname, text, missing, eq_attrs is not None))
+    return out
